@@ -353,9 +353,9 @@ fn twins(rep: &mut Report, rng: &mut Rng, k: u64) {
 }
 
 pub fn run(ctx: &Ctx, rep: &mut Report) {
-    let n = ctx.n(16_000, 4_500_000);
-    let n_tw = ctx.n(3000, 750_000);
-    let n_thr = ctx.n(1500, 450_000);
+    let n = ctx.n(48_000, 4_500_000);
+    let n_tw = ctx.n(9000, 750_000);
+    let n_thr = ctx.n(4500, 450_000);
     for k in ctx.cases(n + n_tw + n_thr) {
         rep.cur_case = k;
         crate::ctx::begin_case(k);
